@@ -6,27 +6,40 @@ from protocol import Exc
 from debian_inspector import copyright as cr
 
 ID = 'C13'
-LEVEL = 'other'
-EXPLANATION = ('executable fixpoint specification (Lean) evaluated on every implementation observation + differential correspondence of a hand model of the '
-               'render/parse cycle with the real code; the only machine-checked facts are about single documents (K1 negation on its witness), so this is not claimed as proof')
-THEOREMS = [('DebInspector.Thm.C13', ['Props.C13.K1_witness', 'Props.C13.K1_partial_witness', 'Props.C13.fixpoint_example'])]
+LEVEL = 'proof'
+EXPLANATION = ('Lean 4 theorem for every document of the DEP-5 grammar whose text blocks start with a paragraph line (Props.C13D.sound_partial): outside finding K1 the copyright object '
+               'is a fixpoint of dumps -> from_text, from_dict(to_dict(p)) reproduces every paragraph and the rendering has one block of lines per paragraph; the hand model of '
+               'parser, typed fields and renderers is tied to the code by differential correspondence, and the executable specification is evaluated on every implementation observation '
+               '(which also covers text blocks that start with a verbatim line, where the theorem is silent)')
+THEOREMS = [('DebInspector.Thm.C13D', ['Props.C13D.sound_partial', 'Props.C13D.cycle', 'Props.C13D.fromDict_toDict', 'Props.C13D.noBlank_canon',
+                                       'Props.C13D.wf_canon', 'Props.C13D.docDumps_eq', 'Props.C13D.fromText_spells']),
+            ('DebInspector.Thm.C13P', ['Props.C13P.paraDumps_eq', 'Props.C13P.paraOk_canon', 'Props.C13P.paraOf_canon', 'Props.C13P.toDict_eq']),
+            ('DebInspector.Thm.C13F', ['Props.C13F.dumps_eq', 'Props.C13F.canon_fieldOk', 'Props.C13F.canon_expected', 'Props.C13F.normLabel_canon']),
+            ('DebInspector.Thm.C13', ['Props.C13.K1_witness', 'Props.C13.K1_partial_witness', 'Props.C13.fixpoint_example'])]
 TRUSTED = [
     'Lean 4.33.0 kernel',
     'reading of the property as Props.C13.holdsOn (types and dictionary form preserved by render -> parse, second rendering equal, from_dict reproduces the dictionary form, no blank line inside a paragraph of the rendering)',
-    'hand model of dumps / from_text / from_dict / to_dict, tied by correspondence',
-    'translator harness/translate.py and this correspondence harness',
+    'the DEP-5 grammar Props.Dep5 (shared with C09) as the meaning of "well-formed machine-readable copyright document"',
+    'hand model of dumps / from_text / from_dict / to_dict (Model.Copyright, Model.Debcon, Model.Deb822), tied by correspondence',
+    'translator harness/translate.py (field tables, converter classes, special-cased names) and this correspondence harness',
 ]
-ASSUMPTIONS = ['K1: an unknown (extra) field with a continuation line gains one space of indentation per render/parse cycle (known finding)',
-               'document values do not end in blank-line markers (quantifier of the property)']
-RULE = ('the DEP-5 documents of C09 (header, files and license paragraphs, multi-line licenses with markers and verbatim lines, multi-line copyright, comments, extra fields with and '
-        'without continuation lines). non-trivial = at least two paragraphs')
-TECHNIQUE = ('executable fixpoint specification evaluated on every implementation observation + correspondence with the hand model of the render/parse cycle; '
-             'Lean 4 proof of the K1 negation on its witness')
-LEVEL_TEXT = ('The fixpoint clauses (paragraph types and dictionary form preserved by dumps -> from_text, second rendering identical, from_dict(to_dict(p)) reproduces the dictionary form, the '
-              'rendering has exactly one block per paragraph) are decided by the executable specification on every implementation observation and by correspondence with the hand model of the '
-              'whole render/parse cycle. Proved in Lean 4 (by kernel evaluation, so they are facts about single documents, not the universal claim): the negation for finding K1 on its concrete witness '
-              '(K1_witness), that the K1 hypothesis removes the objection there, and the fixpoint on one non-trivial document. The universal fixpoint statement is not yet a theorem.')
-LEVEL_NOTE = ('Trusted: Lean kernel; axioms propext, Classical.choice, Quot.sound only for the registered theorems; the fixpoint clauses rest on specification evaluation + correspondence; K1 is a known finding.')
+ASSUMPTIONS = ['K1: an unknown (extra) field with a continuation line gains one space of indentation per render/parse cycle (known finding; the theorem is stated outside it)',
+               'document values do not end in blank-line markers (quantifier of the property)',
+               'the theorem covers text blocks that start with a paragraph line; blocks that start with a verbatim line are decided by specification evaluation + correspondence only']
+RULE = ('the DEP-5 documents of C09 (header, files and license paragraphs, multi-line licenses with markers and verbatim lines, multi-line copyright with any indentation, comments, extra fields with and '
+        'without continuation lines, names with doubled and trailing hyphens). non-trivial = at least two paragraphs')
+TECHNIQUE = ('Lean 4 theorem Props.C13D.sound_partial (field level: dumps of every typed value is the raw value of a canonical field of the same grammar that spells the same value; '
+             'paragraph level: the object is rendered as its canonical paragraph; document level: the C09 theorem applied to the canonical document closes the cycle) + '
+             'executable specification evaluated on every implementation observation + correspondence with the hand model of the render/parse cycle')
+LEVEL_TEXT = ('Proved in Lean 4 for every document of the grammar whose text blocks start with a paragraph line and that has no unknown field with a continuation line (finding K1): '
+              'dumps() of the object is the text of a canonical document of the same grammar (typed fields in class order under their conventional names, one list item per line, '
+              'copyright statements aligned, texts starting on the declaration line), which by the C09 theorem parses to paragraph objects with the same class and dictionary form, '
+              'so the second rendering is identical (cycle); from_dict(to_dict(p)) reproduces the dictionary form (fromDict_toDict); the rendering has exactly one block of lines per '
+              'paragraph (noBlank_canon). The whole statement is Props.C13D.sound_partial. Not proved: text blocks that start with a verbatim line (the first parse strips its '
+              'indentation, so the C09 typed-value theorem does not apply) - there, and on every other input, the executable specification is evaluated on the implementation\'s '
+              'observations and the hand model is compared with the code. The K1 negation is proved on its witness.')
+LEVEL_NOTE = ('Trusted: Lean kernel; axioms propext, Classical.choice, Quot.sound only; the hand model is tied to the code by correspondence, not by translation; K1 is a known finding and the '
+              'theorem is stated outside it; verbatim-first text blocks rest on specification evaluation + correspondence.')
 
 
 def kd(p):
